@@ -40,6 +40,36 @@ type C13Case struct {
 	// k="b"), the second one missing from some operands: an expression is evaluated series by
 	// series, and its sides differ in size.
 	Series bool `json:"series,omitempty"`
+	// Steps > 0 evaluates over a grid of Steps+1 instants one second apart instead of one instant
+	// (the command always does): the operands are constants, so every instant has to give the
+	// value of the conventional reading - whatever an earlier step left behind.
+	Steps int `json:"steps,omitempty"`
+}
+
+// c13Steps is set by the check around its calls (a test binary decides one case at a time).
+var c13Steps int
+
+func c13Params() model.Params {
+	at := int64(1700000000) * 1e9
+	if c13Steps > 0 {
+		return model.Params{Start: at, End: at + int64(c13Steps)*1e9, Step: 1e9, Limit: -1}
+	}
+	return model.Params{Start: at, End: at, Step: 0, Limit: -1}
+}
+
+// c13OnePoint reduces the points of a series to one value: on a grid all of them must agree.
+func c13OnePoint(text, series string, pts map[int64]float64) (optVal, *evid.Violation) {
+	var out optVal
+	if len(pts) != 0 && len(pts) != c13Steps+1 {
+		return out, evid.Viol("C13/many-points", "%s: series {%s} has %d points on a grid of %d instants", text, series, len(pts), c13Steps+1)
+	}
+	for ts, val := range pts {
+		if out.ok && !optEq(out, optVal{ok: true, v: val}) {
+			return out, evid.Viol("C13/varies-over-steps", "%s: constant operands, but series {%s} is %v at one instant and %v at %d", text, series, out.v, val, ts)
+		}
+		out = optVal{ok: true, v: val}
+	}
+	return out, nil
 }
 
 // c13SeriesLeaf is the text of vector operand i in series mode.
@@ -320,10 +350,9 @@ func leafText(c *C13Chain, idx *int) string {
 
 // c13EvalSeries evaluates text over recs and returns the values of series k="a" and k="b".
 func c13EvalSeries(text string, recs []model.Rec) (a, b optVal, v *evid.Violation) {
-	at := int64(1700000000) * 1e9
 	sorted := append([]model.Rec(nil), recs...)
 	model.SortRecs(sorted)
-	got, _, v, _ := runMetric(sorted, mockstore.Caps{}, false, text, model.Params{Start: at, End: at, Step: 0, Limit: -1})
+	got, _, v, _ := runMetric(sorted, mockstore.Caps{}, false, text, c13Params())
 	if v != nil {
 		v.Sig = "C13/" + v.Sig
 		return a, b, v
@@ -333,15 +362,14 @@ func c13EvalSeries(text string, recs []model.Rec) (a, b optVal, v *evid.Violatio
 		if k != keyA && k != keyB {
 			return a, b, evid.Viol("C13/labels", "%s: result series carries labels {%s}", text, k)
 		}
-		if len(pts) > 1 {
-			return a, b, evid.Viol("C13/many-points", "%s: %d points in series {%s}", text, len(pts), k)
+		one, v := c13OnePoint(text, k, pts)
+		if v != nil {
+			return a, b, v
 		}
-		for _, val := range pts {
-			if k == keyA {
-				a = optVal{ok: true, v: val}
-			} else {
-				b = optVal{ok: true, v: val}
-			}
+		if k == keyA {
+			a = one
+		} else {
+			b = one
 		}
 	}
 	return a, b, nil
@@ -417,25 +445,19 @@ func c13Operands(c C13Chain) string {
 }
 
 func c13Eval(text string) (optVal, *evid.Violation) {
-	at := int64(1700000000) * 1e9
-	got, _, v, _ := runMetric(nil, mockstore.Caps{}, false, text, model.Params{Start: at, End: at, Step: 0, Limit: -1})
+	got, _, v, _ := runMetric(nil, mockstore.Caps{}, false, text, c13Params())
 	if v != nil {
 		v.Sig = "C13/" + v.Sig
 		return optVal{}, v
 	}
-	n := 0
 	var out optVal
 	for k, pts := range got {
 		if k != "" {
 			return optVal{}, evid.Viol("C13/labels", "%s: result series carries labels {%s}", text, k)
 		}
-		for _, val := range pts {
-			n++
-			out = optVal{ok: true, v: val}
+		if out, v = c13OnePoint(text, k, pts); v != nil {
+			return optVal{}, v
 		}
-	}
-	if n > 1 {
-		return optVal{}, evid.Viol("C13/many-points", "%s: %d points", text, n)
 	}
 	return out, nil
 }
@@ -464,6 +486,9 @@ func countOps(c C13Chain, levels map[int]bool, pow *bool) int {
 }
 
 func c13Check(c C13Case) (r evid.Result) {
+	c13Steps = c.Steps
+	defer func() { c13Steps = 0 }()
+	r.Class(c.Steps > 0, "evaluated-over-a-grid")
 	if c.Series {
 		return c13CheckSeries(c)
 	}
@@ -616,6 +641,7 @@ var c13Values = []struct {
 }{{"2", 2}, {"3", 3}, {"5", 5}, {"7", 7}, {"0.5", 0.5}, {"1", 1}, {"11", 11}}
 
 func c13Gen(t *rapid.T) C13Case {
+	steps := rapid.SampledFrom([]int{0, 0, 1, 3}).Draw(t, "grid-steps")
 	avoid := rapid.IntRange(0, 3).Draw(t, "avoid-known-domain") != 0
 	chain := c13GenChain(t, 2, 5, avoid)
 	switch rapid.IntRange(0, 7).Draw(t, "literals") {
@@ -674,9 +700,9 @@ func c13Gen(t *rapid.T) C13Case {
 		}
 		set(&chain)
 		idx := 0
-		return C13Case{Chain: chain, Text: chain.seriesText(&idx), Series: true}
+		return C13Case{Chain: chain, Text: chain.seriesText(&idx), Series: true, Steps: steps}
 	}
-	return C13Case{Chain: chain, Text: chain.String()}
+	return C13Case{Chain: chain, Text: chain.String(), Steps: steps}
 }
 
 // TestC13 decides C13.
